@@ -15,7 +15,8 @@ def run(rep, kf, tier, seed):
     import contracts.project as cproj
     import contracts.process_config as cpc
     import contracts.pipeline as cpl
-    engine_b.discharge(rep, kf, [cproj.init_contract(), cpc.process_config_contract()] + cpl.all_contracts(), "C16", tier, seed)
+    engine_b.discharge(rep, kf, [cproj.init_contract(), cpc.process_config_contract(), cproj.build_contract("NONE"),
+                                 cproj.build_contract("POETRY")] + cpl.all_contracts(), "C16", tier, seed)
     rep.obligations = [o for o in rep.obligations if "C16" in o.props or o.id.endswith("no-exception-escapes")]
     cd.discharge(rep, kf, "C16", tier, seed)
     import contracts.closure as cl
